@@ -932,6 +932,35 @@ pub fn make(profile: &str, seed: u64, index: u64) -> (Params, Extras) {
         }
         "C02" => must_deliver(seed, index % 4 == 3, index % 4 == 2),
         "C02bh" => never_recovers(seed, index),
+        "C14idle" => {
+            // the idle timeout that applies is the smaller of the two advertised values, or the
+            // only one if one side advertises none (RFC 9000 10.1): asymmetric settings, then
+            // the path dies for good and both ends must report that within the applied value
+            let mut p = never_recovers(seed, index);
+            let mut r = Rng::new(seed ^ 0xc14d);
+            p.profile = "C14idle".into();
+            p.relabel = Some("C14".into());
+            let vals = [0u64, 3_000, 5_000, 8_000, 15_000, 40_000];
+            let (a, b) = loop {
+                let a = *r.pick(&vals);
+                let b = *r.pick(&vals);
+                if a != b {
+                    break (a, b);
+                }
+            };
+            p.server.idle_timeout_ms = a;
+            for c in p.clients.iter_mut() {
+                c.cfg.idle_timeout_ms = b;
+            }
+            // only blackholes after the handshake say something about the negotiated value
+            for d in 0..2 {
+                if let Some(k) = p.net.blackhole_after[d].as_mut() {
+                    *k = (*k).max(12);
+                }
+            }
+            p.linger_us = 2 * (a.max(b) + 20_000) * 1000;
+            p
+        }
         "C09bh" => {
             // the same permanent-blackhole scenarios, watched by the loss/PTO monitor: long
             // chains of consecutive probe timeouts without any acknowledgement in between
@@ -1163,6 +1192,7 @@ pub fn nontrivial_features(profile: &str) -> &'static [&'static str] {
         "C02" => &["blocked_stream_credit", "blocked_conn_credit", "blocked_stream_count", "loss", "net_drop", "congestion_event"],
         "C02bh" => &["net_drop"],
         "C09bh" => &["pto_probe"],
+        "C14idle" => &["net_drop"],
         "C06" => &["injection"],
         "C15" => &["key_updated"],
         "C14" => &["error_close", "tight_stream_limit", "tight_conn_limit", "tight_stream_count", "blocked_stream_count", "stream_completed"],
